@@ -34,6 +34,7 @@ pub struct Mix {
     pub grave_goods: u32,
     pub last_will: u32,
     pub sys_attack: u32,
+    pub sys_odd: u32,
     pub bad: u32,
     pub sleep: u32,
 }
@@ -141,6 +142,7 @@ pub fn gen_op(rng: &mut Rng, mix: &Mix, g: &mut GenCtx) -> Op {
         (mix.bad, 24),
         (mix.sleep, 25),
         (mix.cas_rewrite, 26),
+        (mix.sys_odd, 27),
     ];
     g.n += 1;
     let n = g.n;
@@ -284,6 +286,20 @@ pub fn gen_op(rng: &mut Rng, mix: &Mix, g: &mut GenCtx) -> Op {
         23 => sys_attack(rng, c, n),
         24 => bad_line(rng),
         25 => Op::Sleep(rng.range(1, 2_000_000)),
+        27 => {
+            let t = rng.pick(SYS_ODD).to_string();
+            let v = json!(format!("x{c}_{n}"));
+            match rng.below(8) {
+                0 => Op::Req(json!({"set": {"key": t, "value": v}})),
+                1 => Op::Req(json!({"cSet": {"key": t, "value": v, "version": 0}})),
+                2 => Op::Req(json!({"delete": {"key": t}})),
+                3 => Op::Req(json!({"pDelete": {"requestPattern": t}})),
+                4 => Op::Req(json!({"sPubInit": {"key": t}})),
+                5 => Op::Req(json!({"lock": {"key": t}})),
+                6 => Op::Req(json!({"set": {"key": "$SYS/clients/<SELF>/lastWill", "value": [{"key": t, "value": v}]}})),
+                _ => Op::Req(json!({"get": {"key": t}})),
+            }
+        }
         26 => Op::CasRewrite {
             key: rng.pick(&g.cas_keys).clone(),
             token: format!("r{c}_{n}"),
@@ -303,6 +319,27 @@ pub const SYS_TARGETS: &[&str] = &[
     "$SYS/clients/<SELF>/clientName",
     "$SYS/store/mode",
     "$SYS",
+    "$SYS/clients/<SELF>",
+    "$SYS/clients/<SELF>/",
+    "$SYS/clients/<SELF_UPPER>/clientName",
+    "$SYS/clients/<SELF_SIMPLE>/graveGoods",
+    "$SYS/clients/<SELF_BRACED>/lastWill",
+    "$SYS/clients/<SELF_URN>/clientName",
+    "$SYS/clients/<SELF>/clientName/x",
+    "$SYS/clients",
+];
+
+/// odd literal `$SYS` shapes for the robustness check (no wildcards: nothing is wiped)
+pub const SYS_ODD: &[&str] = &[
+    "$SYS",
+    "$SYS/",
+    "$SYS/clients",
+    "$SYS/clients/",
+    "$SYS/clients/<SELF>",
+    "$SYS/clients/<SELF>/",
+    "$SYS/clients/<SELF>/graveGoods/x",
+    "$SYS/clients/<SELF_UPPER>/clientName",
+    "$SYS//",
 ];
 
 pub const SYS_PATTERNS: &[&str] = &[
